@@ -113,6 +113,10 @@ Definition dispatch (req : sx) : sx :=
   else if op =? "model_hist_rel" then   (* le is64 em rela img off size hist *)
     sx_answers sx_entry (rel_hist (rel_struct (gbool a1) (gbool a2) (is_mips (gI a3)) (gbool a4))
                                   (gB a5) (gI a6) (gI a7) (g_hist (nthx 8 l)))
+  else if op =? "model_read_dwarf_file" then (* le is64 em img e_shoff e_shnum table secidx relocate *)
+    let table := g_secs a7 in
+    sx_res SB (read_dwarf_section_file (gbool a1) (gbool a2) (gI a3) (gB a4) (gI a5) (gI a6) table
+                                       (nth_sec table (gI (nthx 8 l))) (gbool (nthx 9 l)))
   else if op =? "model_dwarf_seq" then  (* le is64 em img secs secidx flags -> ((results...) image-unchanged) *)
     let secs := g_secs a5 in
     let img := gB a4 in
